@@ -13,6 +13,7 @@ DECIDED = [
     "RECUR: every recursion reachable from a parser entry point carries a depth counter tested against a limit",
     "ERRCHAN: every `return AWS_OP_ERR` of an int-returning parser function follows aws_raise_error or the failure of a callee that raised",
     "ABORT: no abort()/fatal assertion in a parser depends on input bytes (only on API misuse and internal state)",
+    "REQUIRES/SUMMARY: the preconditions NUM assumes at the entry of internal helpers (3 bytes of room for the URI character appenders, the '<' before an XML declaration view) hold at every call site, and the callee postconditions it uses at call sites (buffer reserve, exact find, appender growth 1..3) are re-derived from the callees' bodies",
     "WRAPPER: JSON text is parsed from a NUL-terminated private copy that is destroyed on every path; every public CBOR decode entry tests the sticky error first and consumes exactly the bytes the stream decoder reports",
 ]
 NOT_DECIDED = ["internals of the vendored cJSON and libcbor (only their call sites and their nesting limits)", "content-dependent facts (which byte values occur where)", "libc calls (strtod, sscanf, strftime)"]
@@ -24,9 +25,7 @@ SKIP_FUNCS = {"aws_uri_init_from_builder_options", "aws_date_time_to_local_time_
 
 # named sites whose bound rests on a content fact NUM does not model; each with its reason
 ASSUMED = {
-    ("aws_xml_parse", "*(parser.doc.ptr + 1)"): "the '>' found by memchr lies after the '<' at doc.ptr[0] (a different byte), so at least two bytes remain",
-    ("aws_xml_node_traverse", "*(next_location + 1)"): "the '>' was searched from next_location, whose own byte is '<', so next_location+1 <= end_location is inside the document",
-    ("s_load_node_decl", "decl_body->ptr[(decl_body->len - 1)]"): "for an empty declaration this reads the '<' immediately before the view, which is inside the document (the view starts one past it)",
+    ("s_load_node_decl", "decl_body->ptr[(decl_body->len - 1)]"): "for an empty declaration the index wraps and the byte read is the '<' immediately before the view; REQUIRES s_load_node_decl checks at both call sites that this byte is inside the document",
 }
 
 PAIRS = {
@@ -35,14 +34,67 @@ PAIRS = {
 }
 
 
+def _param(sub, st, i):
+    p = sub.fn.params[i]
+    return sub.read({"k": "var", "n": p["n"], "sc": "param", "t": p["t"], "id": -1}, st)
+
+
 class ParserHooks(AwsHooks):
     """AwsHooks + (a) user callbacks reach the parser only through its API, which only consumes input: a cursor length is
-    not larger after an indirect call than before; (b) documented preconditions of internal helpers (REQUIRES)."""
+    not larger after an indirect call than before; (b) preconditions of internal helpers (REQUIRES): assumed at the
+    helper's entry, checked at each of its call sites (also through a function-pointer parameter all of whose values are
+    such helpers)."""
     assume_small_views = True
     cursor_postconditions = True
 
+    def fnptr_targets(self, num, e):
+        """functions an indirect call through one of the current function's parameters can reach: every value passed
+        for that parameter anywhere in the program"""
+        fn = num.fn
+        fx = fn.d(e.get("fn")) if e.get("fn") is not None else None
+        while fx is not None and (fx["k"] in ("cast", "decay") or (fx["k"] == "un" and fx["op"] == "deref")):
+            fx = fn.d(fx["a"][0])
+        if fx is None or fx["k"] != "var" or fx.get("sc") != "param":
+            return None
+        idx = [i for i, p in enumerate(fn.params) if p["n"] == fx["n"]]
+        if not idx or num.prog is None:
+            return None
+        memo = num.prog.__dict__.setdefault("_fnptr_targets", {})
+        key = (fn.name, idx[0])
+        if key not in memo:
+            names, ok = set(), True
+            for g in num.prog.fns.values():
+                for c in g.calls(fn.name):
+                    if idx[0] >= len(c.node["a"]):
+                        ok = False
+                        continue
+                    a = RU.uncast(g, c.node["a"][idx[0]])
+                    while a is not None and a["k"] == "decay":
+                        a = g.d(a["a"][0])
+                    if a is not None and a["k"] == "fn":
+                        names.add(a["n"])
+                    else:
+                        ok = False
+            memo[key] = names if ok and names else None
+        return memo[key]
+
     def call(self, num, st, e, args):
-        if e.get("callee") is None:
+        name = e.get("callee")
+        if name in REQUIRES:
+            num.__dict__.setdefault("req_log", []).append((name, e, REQUIRES[name][1](num, st, e, args)))
+        if name is None:
+            tg = self.fnptr_targets(num, e)
+            if tg and all(t in REQUIRES and t in APPEND_CHAR for t in tg):
+                # an internal character appender: precondition checked here, effect as verified from the bodies (SUMMARY)
+                for t in sorted(tg):
+                    num.__dict__.setdefault("req_log", []).append((t, e, REQUIRES[t][1](num, st, e, args)))
+                base = num.base_of(st, args[0])
+                ln = num.field(st, base + "len", "aws_byte_buf", "len")
+                d = Poly.atom(num.fresh(st, "appended", None, (1, 3)))
+                st.env[base + "len"] = ln + d
+                buf = st.env.get(base + "buffer")
+                num.cell_store(st, buf)
+                return None
             before = {k: v for k, v in st.env.items() if (st.meta.get(k) or (None, None))[0:2] == ("aws_byte_cursor", "len")}
             num.havoc_call(e, st)
             for k, v in before.items():
@@ -55,22 +107,65 @@ class ParserHooks(AwsHooks):
             return Poly.atom(num.fresh(st, "cb", t)) if ("w" in t or t.get("ptr")) else None
         return AwsHooks.call(self, num, st, e, args)
 
+    def call_modifies(self, num, st, e):
+        """loop pre-analysis: an indirect call to a character appender changes exactly the buffer's len"""
+        if e.get("callee") is None:
+            tg = self.fnptr_targets(num, e)
+            if tg and all(t in APPEND_CHAR for t in tg):
+                s2 = st.copy()
+                bv = num.val(num.fn.d(e["a"][0]), s2)
+                if bv is not None:
+                    return [(num.base_of(st, bv) + "len", "aws_byte_buf", "len")]
+        return None
+
     def entry(self, num, st):
         req = REQUIRES.get(num.fn.name)
         if req:
-            req(num, st)
+            req[0](num, st)
+
+
+def _buf_of(num, st, p):
+    base = num.base_of(st, p)
+    return num.field(st, base + "len", "aws_byte_buf", "len"), num.field(st, base + "capacity", "aws_byte_buf", "capacity")
 
 
 def _req_room3(num, st):
-    """s_*append_canonicalized_*: at least 3 bytes of room (their AWS_ASSERT; every call site is behind the 3:1 reservation, C13)"""
-    p = num.fn.params[0]
-    b = num.read({"k": "var", "n": p["n"], "sc": "param", "t": p["t"], "id": -1}, st)
-    ln = num.field(st, "(%r)->len" % b, "aws_byte_buf", "len")
-    cap = num.field(st, "(%r)->capacity" % b, "aws_byte_buf", "capacity")
+    """s_*append_canonicalized_*: at least 3 bytes of room (their AWS_ASSERT)"""
+    ln, cap = _buf_of(num, st, _param(num, st, 0))
     st.add(ln + 3 - cap)
 
 
-REQUIRES = {"s_unchecked_append_canonicalized_path_character": _req_room3, "s_raw_append_canonicalized_param_character": _req_room3}
+def _chk_room3(num, st, e, args):
+    if args[0] is None:
+        return False
+    ln, cap = _buf_of(num, st, args[0])
+    return entails(st, ln + 3 - cap)
+
+
+def _req_decl(num, st):
+    """s_load_node_decl: the byte before the declaration view (the '<') belongs to the document"""
+    d = _param(num, st, 1)
+    base = num.base_of(st, d)
+    ln = num.field(st, base + "len", "aws_byte_cursor", "len")
+    b = num.fresh(st, "lt", None, (1, 2 ** 63))
+    st.extent[b] = ln + 1
+    st.env[base + "ptr"] = Poly.atom(b) + 1
+    st.meta[base + "ptr"] = ("aws_byte_cursor", "ptr", None)
+
+
+def _chk_decl(num, st, e, args):
+    if args[1] is None:
+        return False
+    base = num.base_of(st, args[1])
+    p, ln = st.env.get(base + "ptr"), st.env.get(base + "len")
+    if p is None or ln is None:
+        return False
+    return in_bounds(st, p - 1, ln + 1)[0] == "ok"
+
+
+REQUIRES = {"s_unchecked_append_canonicalized_path_character": (_req_room3, _chk_room3), "s_raw_append_canonicalized_param_character": (_req_room3, _chk_room3),
+            "s_load_node_decl": (_req_decl, _chk_decl)}
+APPEND_CHAR = {"s_unchecked_append_canonicalized_path_character", "s_raw_append_canonicalized_param_character"}
 PROGRESS_SKIP_FILES = ("source/cbor.c", "source/json.c")
 DELEGATED = {"aws_query_string_next_param", "aws_byte_cursor_next_split", "aws_hash_iter_done"}
 ERRCHAN_OK = {"s_init_from_uri_str": "returns ERR exactly when a state function set ERROR, and each of them raises when it does (checked below)"}
@@ -106,14 +201,19 @@ def parser_functions(P):
 
 
 def analyse(ctx, replace=None, only=None, config="ship"):
+    """only (self-check runs): {"files": [...], "rules": [...]} restricts the sweep to the parser functions of those files
+    and the whole-program rules to the named ones"""
     R = ctx.R
     units = [u for u in library_units(ctx.ex.repo) if "external" not in u]
     P = ctx.program(units, config, replace=replace)
     fns = parser_functions(P)
     R.require(len(fns) >= 100, "only %d parser functions found" % len(fns))
+    if only:
+        fns = [f for f in fns if any(f.file.endswith(x) for x in only.get("files", []))]
     hooks = ParserHooks()
     n_ok = n_und = 0
     loops_checked = 0
+    req_seen = set()
     for f in fns:
         R.fn(f)
         num = Num(f, P, hooks, max_paths=20000)
@@ -159,6 +259,14 @@ def analyse(ctx, replace=None, only=None, config="ship"):
                 R.fail("BOUND", inst, where(f, n), "access through an input view or output buffer whose bound cannot be established: " + det)
             else:
                 n_und += 1
+        # REQUIRES: preconditions of internal helpers hold at every call site, in every state reaching it
+        by_site = {}
+        for (callee, e, okr) in getattr(num, "req_log", []):
+            by_site.setdefault((callee, e["id"]), [e, []])[1].append(okr)
+        for (callee, eid), (e, oks) in sorted(by_site.items()):
+            req_seen.add(callee)
+            R.check(all(oks), "REQUIRES", "%s->%s" % (f.name, callee), where(f, e), "%s holds in all %d states at the call" % (REQUIRES[callee][0].__doc__.split(":")[1].strip(), len(oks)),
+                    "the helper's precondition (%s) is not established at this call" % REQUIRES[callee][0].__doc__.strip())
         # PROGRESS
         for h, res in sorted(getattr(num, "progress", {}).items()):
             if f.file.endswith(PROGRESS_SKIP_FILES):
@@ -174,7 +282,23 @@ def analyse(ctx, replace=None, only=None, config="ship"):
             bad = [r for r in res if not r[0]]
             R.check(not bad, "PROGRESS", "%s:loop@%s" % (f.name, (B.term_loc or [0])[0]), loc, "every path around the loop strictly moves %s" % sorted({r[1] for r in res if r[0]}),
                     "a path around the loop changes nothing monotonically (modified keys: %s): the parser may spin on some input" % (bad[0][2] if bad else ""))
+    if only:
+        want = set(only.get("rules", []))
+        if "SUMMARY" in want:
+            summaries(R, P)
+        if want & {"PROGRESS", "ERRCHAN"}:
+            uri_state_machine(R, P)
+        if "RECUR" in want:
+            recursion(R, P, parser_functions(P))
+        if "ERRCHAN" in want:
+            errchan(R, P, fns)
+        if "ABORT" in want:
+            aborts(R, P, fns)
+        if "WRAPPER" in want:
+            wrappers(R, P)
+        return
     R.require(n_ok >= 120, "only %d parser bounds obligations discharged" % n_ok)
+    R.require(req_seen == set(REQUIRES), "helpers with an assumed precondition but no checked call site: %s" % sorted(set(REQUIRES) - req_seen))
     R.notes.append("%d accesses through caller-provided raw pointers (out-parameters) not checked" % n_und)
     summaries(R, P)
     uri_state_machine(R, P)
@@ -282,17 +406,12 @@ def uri_state_machine(R, P):
         R.check(loops == ["(parser.state < FINISHED)"], "PROGRESS", "uri:driver-loop", "%s()" % d.name, "driver runs while state < FINISHED")
 
 
-def _param(sub, st, i):
-    p = sub.fn.params[i]
-    return sub.read({"k": "var", "n": p["n"], "sc": "param", "t": p["t"], "id": -1}, st)
-
-
 def summaries(R, P):
     """the callee postconditions NUM relies on (sa/awslib.py summaries) are re-derived from the callees' own bodies"""
     from sa.num import State
     hooks = ParserHooks()
 
-    def run(name, setup, post):
+    def run(name, setup, post, exits=False):
         g = P.fn(name)
         if not R.require(g is not None and g.blocks, "%s not found" % name):
             return
@@ -304,13 +423,18 @@ def summaries(R, P):
         ctx = setup(sub, st0)
         rets = [x for b in g.blocks.values() for x in b.elems if x["k"] == "ret"]
         try:
-            sts = sub.states_at({r["id"] for r in rets}, entry_state=st0)
+            sts = sub.states_at({-1} if exits else {r["id"] for r in rets}, entry_state=st0)
         except Limit as ex:
             R.broken("NUM trace limit in %s: %s" % (name, ex))
             return
         n = 0
         bad = None
-        for r in rets:
+        for st in (sts.get(-1, []) if exits else []):
+            n += 1
+            why = post(sub, st, None, ctx)
+            if why:
+                bad = "%s (branch trail %s)" % (why, st.trail[-4:])
+        for r in ([] if exits else rets):
             for st in sts.get(r["id"], []):
                 rv = sub.val(r["a"][0], st)
                 n += 1
@@ -375,6 +499,26 @@ def summaries(R, P):
         return "return value is neither 0 nor -1"
 
     run("aws_byte_cursor_find_exact", setup_find, post_find)
+
+    def setup_app(sub, st0):
+        hooks.entry(sub, st0)
+        b = _param(sub, st0, 0)
+        base = sub.base_of(st0, b)
+        return {"base": base, "len": sub.field(st0, base + "len", "aws_byte_buf", "len"), "cap": sub.field(st0, base + "capacity", "aws_byte_buf", "capacity"),
+                "buf": sub.field(st0, base + "buffer", "aws_byte_buf", "buffer")}
+
+    def post_app(sub, st, rv, c):
+        l1, c1, b1 = st.env.get(c["base"] + "len"), st.env.get(c["base"] + "capacity"), st.env.get(c["base"] + "buffer")
+        if l1 is None or c1 is None or b1 is None:
+            return "buffer fields not tracked"
+        if c1 != c["cap"] or b1 != c["buf"]:
+            return "capacity or storage changed"
+        if not (entails(st, c["len"] + 1 - l1) and entails(st, l1 - c["len"] - 3)):
+            return "len does not grow by 1..3"
+        return None
+
+    for nm in sorted(APPEND_CHAR):
+        run(nm, setup_app, post_app, exits=True)
 
 
 def errchan(R, P, fns):
@@ -486,5 +630,16 @@ MUTANTS = [
     {"name": "xml-depth-guard-dropped", "file": "source/xml_parser.c", "expect": "RECUR", "old": "    if (doc_depth >= parser->max_depth) {", "new": "    if (doc_depth >= parser->max_depth && parser->max_depth == 0) {"},
     {"name": "uri-scheme-lookahead-unchecked", "file": "source/uri.c", "expect": "BOUND",
      "old": "    if ((size_t)(location_of_colon - str->ptr) + 1 >= str->len || *(location_of_colon + 1) != '/') {", "new": "    if (*(location_of_colon + 1) != '/') {"},
+    {"name": "base64-decoded-len-too-small", "file": "source/encoding.c", "expect": "BOUND", "old": "    size_t decoded_len_tmp = (len / 4) * 3;", "new": "    size_t decoded_len_tmp = (len / 4) * 2;"},
+    {"name": "base64-decode-final-block-ignores-padding", "file": "source/encoding.c", "expect": "BOUND", "old": "        padding = 1;\n", "new": "        padding = 2;\n"},
+    {"name": "base64-encode-capacity-check-dropped", "file": "source/encoding.c", "expect": "BOUND", "old": "    if (AWS_UNLIKELY(output->capacity < needed_capacity)) {", "new": "    if (AWS_UNLIKELY(output->capacity < output->len)) {"},
+    {"name": "uri-encode-reserves-2x", "file": "source/uri.c", "expect": "REQUIRES", "old": "aws_mul_size_checked(3, cursor->len, &capacity_needed)", "new": "aws_mul_size_checked(2, cursor->len, &capacity_needed)"},
+    {"name": "uri-decode-no-reserve", "file": "source/uri.c", "expect": "BOUND", "old": "    if (aws_byte_buf_reserve_relative(buffer, cursor->len)) {", "new": "    if (aws_byte_buf_reserve_relative(buffer, cursor->len / 2)) {"},
+    {"name": "xml-closing-tag-no-progress", "file": "source/xml_parser.c", "expect": "PROGRESS", "old": "                    aws_byte_cursor_advance(&parser->doc, skip_len + 1);", "new": "                    aws_byte_cursor_advance(&parser->doc, skip_len);"},
+    {"name": "reserve-grows-too-little", "file": "source/byte_buf.c", "expect": "SUMMARY", "old": "    buffer->capacity = requested_capacity;\n\n    AWS_POSTCONDITION(aws_byte_buf_is_valid(buffer));\n    return AWS_OP_SUCCESS;\n}\n\nint aws_byte_buf_reserve_relative",
+     "new": "    buffer->capacity = requested_capacity + 1;\n\n    AWS_POSTCONDITION(aws_byte_buf_is_valid(buffer));\n    return AWS_OP_SUCCESS;\n}\n\nint aws_byte_buf_reserve_relative"},
+    {"name": "find-exact-accepts-short-tail", "file": "source/byte_buf.c", "expect": "SUMMARY", "old": "        if (working_cur.len < to_find->len) {", "new": "        if (working_cur.len + 1 < to_find->len) {"},
     {"name": "err-without-raise", "file": "source/uuid.c", "expect": "ERRCHAN", "old": "        return aws_raise_error(AWS_ERROR_MALFORMED_INPUT_STRING);", "new": "        return AWS_OP_ERR;"},
 ]
+for _m in MUTANTS:
+    _m.setdefault("scope", {"files": [_m["file"]], "rules": [_m["expect"]]})
